@@ -119,6 +119,9 @@ func (p *proxy) handleAgentPostResponse(w http.ResponseWriter, r *http.Request, 
 	}
 	if _, err := io.Copy(pw, respBody); err != nil {
 		log.Printf("Could not read response to request %q: %v", requestID, err)
+		// Pass the failure on to the frontend handler; a plain Close would make the part
+		// of the body that did arrive look like a complete response.
+		pw.CloseWithError(err)
 		http.Error(w, "Failure reading request body", http.StatusInternalServerError)
 	}
 }
@@ -267,8 +270,14 @@ func (p *proxy) ServeHTTP(w http.ResponseWriter, r *http.Request) {
 		}
 		w.Header().Add("transfer-encoding", "chunked")
 		w.WriteHeader(resp.StatusCode)
-		io.Copy(w, resp.Body)
+		_, copyErr := io.Copy(w, resp.Body)
 		resp.Body.Close()
+		if copyErr != nil {
+			// The response is incomplete; abort the connection rather than ending the
+			// body cleanly, so that the client can tell.
+			log.Printf("Aborting the response for %q: %v", id, copyErr)
+			panic(http.ErrAbortHandler)
+		}
 		for name, vals := range resp.Trailer {
 			if isHopByHopHeader(name) {
 				continue
